@@ -17,6 +17,8 @@ fn plans(tier: Tier) -> Vec<Plan> {
             Plan { n: 1, depth: 5, cfgs: traced(&[0, 65534], true) },
             Plan { n: 2, depth: 4, cfgs: traced(&[0, 65534], true) },
             Plan { n: 4, depth: 3, cfgs: traced(&[0], false) },
+            // Deeper histories over the reduced shape set (recycled, non-sequential free lists).
+            Plan { n: 4, depth: 5, cfgs: traced(&[0], false).into_iter().filter(|c| !c.ap).map(|mut c| { c.reduced = true; c.notify_ops = false; c }).collect() },
         ],
         Tier::Thorough => vec![
             Plan { n: 1, depth: 9, cfgs: traced(&[0, 65535, 65533], true) },
